@@ -29,6 +29,8 @@ type c02Input struct {
 	Files       []c02File `json:"files"`
 	Paths       []string  `json:"paths,omitempty"`
 	AllowLabels bool      `json:"allow_labels,omitempty"`
+	AllowStdin  bool      `json:"allow_stdin,omitempty"`
+	Stdin       string    `json:"stdin,omitempty"` // strconv.Quote of what os.Stdin delivers
 }
 
 // ---------- observation ----------
@@ -239,7 +241,17 @@ func c02Count(o *hx.Out, ob *c02Obs, raw []string) {
 // ---------- benchfmt.Files on real files ----------
 
 func c02Files(o *hx.Out, dir string, names []string, contents []string, paths []string, allow bool, tags ...string) (err error) {
+	return c02FilesStdin(o, dir, names, contents, paths, allow, nil, tags...)
+}
+
+// c02FilesStdin: stdin == nil runs Files{AllowStdin: false} (case kind 2); otherwise AllowStdin is set and
+// os.Stdin delivers *stdin for the duration (case kind 4; the path "-" and, with no paths at all, the
+// implicit input read it)
+func c02FilesStdin(o *hx.Out, dir string, names []string, contents []string, paths []string, allow bool, stdin *string, tags ...string) (err error) {
 	in := c02Input{Kind: "files", Paths: paths, AllowLabels: allow}
+	if stdin != nil {
+		in.AllowStdin, in.Stdin = true, strconv.Quote(*stdin)
+	}
 	for i, n := range names {
 		in.Files = append(in.Files, c02File{Name: n, Content: strconv.Quote(contents[i])})
 	}
@@ -267,6 +279,20 @@ func c02Files(o *hx.Out, dir string, names []string, contents []string, paths []
 		}
 	}()
 	fl := &benchfmt.Files{Paths: paths, AllowLabels: allow}
+	if stdin != nil {
+		sp := filepath.Join(dir, ".stdin")
+		if e := os.WriteFile(sp, []byte(*stdin), 0o644); e != nil {
+			return e
+		}
+		sf, e := os.Open(sp)
+		if e != nil {
+			return e
+		}
+		old := os.Stdin
+		os.Stdin = sf
+		defer func() { os.Stdin = old; sf.Close(); os.Remove(sp) }()
+		fl.AllowStdin = true
+	}
 	ob := &c02Obs{}
 	for fl.Scan() {
 		if e := ob.add(fl.Result()); e != nil {
@@ -283,7 +309,11 @@ func c02Files(o *hx.Out, dir string, names []string, contents []string, paths []
 			o.Count("io-error")
 			// "path:line: msg"
 			s := e.Error()
-			for _, n := range names {
+			enames := names
+			if stdin != nil {
+				enames = append(append([]string{}, names...), "-")
+			}
+			for _, n := range enames {
 				if l := c02ErrLine(e, n); l >= 0 && strings.HasPrefix(s, n+":") {
 					el = l
 				}
@@ -308,9 +338,17 @@ func c02Files(o *hx.Out, dir string, names []string, contents []string, paths []
 	}
 	c := hx.L(hx.I(2), c02Oracle(contents), hx.Bool(allow), hx.List(fsx), hx.SList(paths),
 		hx.List(ob.recs), hx.I(ek), hx.I(el), hx.List(units), hx.Bool(ob.stable()))
+	key := strings.Join(paths, "\x00") + "\x01" + strings.Join(contents, "\x00")
+	if stdin != nil {
+		all := append(append([]string{}, contents...), *stdin)
+		c = hx.L(hx.I(4), c02Oracle(all), hx.Bool(allow), hx.List(fsx), hx.SList(paths), hx.S(*stdin),
+			hx.List(ob.recs), hx.I(ek), hx.I(el), hx.List(units), hx.Bool(ob.stable()))
+		key += "\x02" + *stdin
+		o.Count(fmt.Sprintf("files:allow-stdin:paths=%d", len(paths)))
+	}
 	c02Count(o, ob, contents)
 	o.Count(fmt.Sprintf("files:paths=%d", len(paths)))
-	o.Add(c, in, strings.Join(paths, "\x00")+"\x01"+strings.Join(contents, "\x00"), ob.nres > 0, tags...)
+	o.Add(c, in, key, ob.nres > 0, tags...)
 	return nil
 }
 
@@ -878,6 +916,38 @@ func genC02(o *hx.Out, r *hx.Rng, tier string, replay string) error {
 		}
 		if err := c02Files(o, dir, names, contents, paths, allow, "files"); err != nil {
 			return err
+		}
+		if i%4 == 0 {
+			// the same world with AllowStdin: no paths at all (the implicit input), "-" alone, "-" among files,
+			// "label=-"; at most one input reads stdin (a second read of the consumed stream is the empty file)
+			stdin := c02Text(r, o, r.Intn(12))
+			var sp []string
+			switch r.Intn(5) {
+			case 0:
+				sp = nil
+			case 1:
+				sp = []string{"-"}
+			case 2:
+				sp = append([]string{}, paths...)
+				sp[r.Intn(len(sp))] = "-"
+			case 3:
+				sp = append([]string{"L=-"}, paths...)
+			default:
+				sp = append(append([]string{}, paths...), "-")
+			}
+			nd := 0
+			for k, p := range sp {
+				if p == "-" || strings.HasSuffix(p, "=-") {
+					nd++
+					if nd > 1 {
+						sp[k] = names[0]
+					}
+				}
+			}
+			o.Count(fmt.Sprintf("files:allow-stdin:shape=%d", len(sp)))
+			if err := c02FilesStdin(o, dir, names, contents, sp, allow || len(sp) > 0 && strings.Contains(sp[0], "=-"), &stdin, "files", "stdin"); err != nil {
+				return err
+			}
 		}
 	}
 	_ = math.Pi
